@@ -110,7 +110,7 @@ func (w *World) isHarnessAPI(fn *ssa.Function) bool {
 
 func (w *World) harmlessDefer(name string) bool {
 	switch name {
-	case "(*sync.Mutex).Unlock", "(*sync.RWMutex).RUnlock", "(*sync.RWMutex).Unlock":
+	case "(*sync.Mutex).Unlock", "(*sync.RWMutex).RUnlock", "(*sync.RWMutex).Unlock", "encoding/json.freeScanner":
 		return true
 	}
 	return false
